@@ -380,3 +380,104 @@ theorem findTimer_none_mono {w : Wiring} {s s' : AState} {l : Label} (hs : step 
   rw [step_timer_ids hs hl]; exact h
 
 end Hannibal
+
+namespace Hannibal
+open AState
+
+theorem stepTime_spec {s : AState} {t : Nat} {s' : AState} (hs : stepTime s t = some s') :
+    s.clock ≤ t ∧ s' = { s with clock := t } := by
+  unfold stepTime at hs
+  split at hs
+  · rename_i hc; simp at hs; exact ⟨hc.1, hs.symm⟩
+  · simp at hs
+
+/-- what a `timerArm` step does: the timer goes to sleep until `due = clock + d` -/
+theorem stepTimerArm_spec {w : Wiring} {s : AState} {t due : Nat} {s' : AState}
+    (hs : stepTimerArm w s t due = some s') :
+    ∃ x, s.findTimer t = some x ∧ due = s.clock + x.d ∧ s'.clock = s.clock ∧
+      s'.timers = (s.setTimer t (.sleeping due)).timers ∧
+      (x.st = .spawned ∨ (∃ old, x.st = .sleeping old ∧ old ≤ s.clock ∧ x.kind = .interval) ∨
+        (x.st = .sending ∧ x.kind = .intervalWith)) := by
+  unfold stepTimerArm at hs
+  cases hx : s.findTimer t with
+  | none => simp [hx] at hs
+  | some x =>
+    simp only [hx] at hs
+    split at hs
+    · simp at hs
+    · rename_i hdue
+      simp at hdue
+      refine ⟨x, rfl, hdue, ?_⟩
+      cases hst : x.st <;> simp only [hst] at hs
+      case spawned => simp at hs; subst hs; exact ⟨rfl, rfl, .inl rfl⟩
+      case sleeping old =>
+        split at hs
+        · rename_i hc
+          simp at hs; subst hs
+          refine ⟨rfl, rfl, .inr (.inl ⟨old, rfl, ?_, hc.1⟩)⟩
+          have := hc.2.1
+          simp [timerDue, hst] at this
+          exact this
+        · simp at hs
+      case sending =>
+        split at hs
+        · rename_i hc
+          simp at hs; subst hs
+          exact ⟨rfl, rfl, .inr (.inr ⟨rfl, hc.1⟩)⟩
+        · simp at hs
+      all_goals simp at hs
+
+/-- what a `fire` step does: the timer was sleeping and its deadline has passed -/
+theorem stepFire_spec {w : Wiring} {s : AState} {t : Nat} {m : Option Nat} {s' : AState}
+    (hs : stepFire w s t m = some s') :
+    ∃ x due, s.findTimer t = some x ∧ x.st = .sleeping due ∧ due ≤ s.clock ∧ s'.clock = s.clock ∧
+      ((s'.timers = (s.setTimer t .sending).timers ∧ (x.kind = .intervalWith ∨ x.kind = .delayedSend)) ∨
+       s'.timers = (s.setTimer t .dead).timers) := by
+  unfold stepFire at hs
+  cases hx : s.findTimer t with
+  | none => simp [hx] at hs
+  | some x =>
+    simp only [hx] at hs
+    split at hs
+    · simp at hs
+    · rename_i hdue
+      simp at hdue
+      unfold timerDue at hdue
+      cases hst : x.st <;> simp [hst] at hdue
+      rename_i due
+      refine ⟨x, due, rfl, hst, hdue, ?_⟩
+      (repeat' (split at hs)) <;>
+        (first
+          | (simp at hs; done)
+          | (simp at hs; subst hs; first
+              | exact ⟨rfl, .inr rfl⟩
+              | (refine ⟨rfl, .inl ⟨rfl, ?_⟩⟩; simp_all)))
+
+theorem stepTimerEnd_spec {w : Wiring} {s : AState} {t : Nat} {s' : AState}
+    (hs : stepTimerEnd w s t = some s') :
+    s'.clock = s.clock ∧ s'.timers = (s.setTimer t .ended).timers := by
+  unfold stepTimerEnd at hs
+  (repeat' (split at hs)) <;> (first | (simp at hs; done) | (simp at hs; subst hs; exact ⟨rfl, rfl⟩))
+
+theorem eq_of_find_nodup : ∀ (l : List Timer), (l.map (fun x => x.id)).Nodup → ∀ {t : Nat} {x y : Timer},
+    l.find? (fun z => z.id == t) = some x → y ∈ l → y.id = t → y = x
+  | [], _, _, _, _, _, hy, _ => by simp at hy
+  | z :: zs, hn, t, x, y, hx, hy, hid => by
+    simp only [List.map_cons, List.nodup_cons] at hn
+    simp only [List.find?_cons] at hx
+    rcases List.mem_cons.mp hy with rfl | hy'
+    · have hb : (y.id == t) = true := by simp [hid]
+      rw [hb] at hx; simpa using hx
+    · by_cases hz : z.id = t
+      · exfalso
+        exact hn.1 (List.mem_map.mpr ⟨y, hy', by rw [hid, hz]⟩)
+      · have hb : (z.id == t) = false := by simp [hz]
+        rw [hb] at hx
+        exact eq_of_find_nodup zs hn.2 hx hy' hid
+
+/-- with distinct ids the timer found by id is the only one carrying that id -/
+theorem eq_of_findTimer {s : AState} (hn : s.timerIds.Nodup) {t : Nat} {x y : Timer}
+    (hx : s.findTimer t = some x) (hy : y ∈ s.timers) (hid : y.id = t) : y = x :=
+  eq_of_find_nodup s.timers hn hx hy hid
+
+end Hannibal
